@@ -480,3 +480,16 @@ class DescriptionUpdate:
         return any(e[0] == "reconnect_soon" for e in trace) == (not old._shutdown)
 
     ensures = [hastens_unless_shut_down]
+
+
+# ------------------------------------------------------------------------------------------------- bounded stand-in
+
+
+def _native(tier, seed):
+    from harness import ip_lifecycle
+
+    return ip_lifecycle.run_backoff(tier, seed, "C10/aiohomekit.controller.ip.connection:HomeKitConnection._reconnect#native")
+
+
+Reconnect.bounded_run = staticmethod(_native)
+Reconnect.bound_note = "the real connector against the scripted accessory failing pair-verify k times before success: attempts, pauses (1.5 x, from 0.75 s, <= 60 s), single connection"
